@@ -12,7 +12,7 @@ import time
 VERIF = os.path.dirname(os.path.dirname(os.path.abspath(__file__)))
 SPEC = os.path.join(VERIF, 'spec')
 WORK = os.path.join(VERIF, '.work')
-EVIDENCE = os.path.join(VERIF, 'evidence')
+EVIDENCE = os.environ.get('VERIF_EVIDENCE_DIR') or os.path.join(VERIF, 'evidence')    # (tools/try_patch.py diverts it)
 REPLAYS = os.path.join(VERIF, 'replays')
 DEPS = os.path.join(VERIF, '.deps')
 CHI_SRC = os.environ.get('CHI_SRC', '/repo')
